@@ -501,3 +501,325 @@ func c04DefaultUnconditional(p *Prog, r *Report, root []*ssa.Function, when *typ
 		r.Und("C04.R9", "default recorded", "", "no store to the default field found")
 	}
 }
+
+// matcherCtorRoles: for a root-package function that builds a Matcher, which of its []interface{} parameters become the
+// conditions (they reach an expression builder of package arg, i.e. a call returning []arg.Expr or arg.Expr) and which
+// become the results (they reach a value converter / the base matcher).
+func matcherCtorRoles(p *Prog, cal *ssa.Function) (conds, results map[int]bool) {
+	conds, results = map[int]bool{}, map[int]bool{}
+	if cal == nil || cal.Blocks == nil {
+		return
+	}
+	for k, prm := range cal.Params {
+		sl, ok := prm.Type().Underlying().(*types.Slice)
+		if !ok || !types.IsInterface(sl.Elem()) {
+			continue
+		}
+		isP := func(v ssa.Value) bool { return v == ssa.Value(prm) }
+		eachInstr(cal, func(i ssa.Instruction) {
+			cl, ok := i.(*ssa.Call)
+			if !ok {
+				return
+			}
+			c2 := staticCallee(cl.Common())
+			if c2 == nil || !strings.HasPrefix(pkgPathOf(c2), Mod) {
+				return
+			}
+			uses := false
+			for _, a := range cl.Call.Args {
+				if dependsOn(a, isP) {
+					uses = true
+				}
+			}
+			if !uses {
+				return
+			}
+			res := c2.Signature.Results()
+			isExpr := false
+			for j := 0; j < res.Len(); j++ {
+				if strings.Contains(res.At(j).Type().String(), "arg.Expr") || strings.Contains(res.At(j).Type().String(), "arg.InExpr") {
+					isExpr = true
+				}
+			}
+			if isExpr {
+				conds[k] = true
+			} else if relPkg(c2) == "" && c2.Signature.Results().Len() == 1 && strings.Contains(c2.Signature.Results().At(0).Type().String(), "Matcher") {
+				results[k] = true
+			} else if relPkg(c2) == "arg" {
+				for j := 0; j < res.Len(); j++ {
+					if strings.Contains(res.At(j).Type().String(), "reflect.Value") {
+						results[k] = true
+					}
+				}
+			}
+		})
+	}
+	return
+}
+
+// c04ConditionsReachMatcher: C04.R10 — a method of When that takes the caller's condition arguments (its variadic
+// parameter) and opens a condition hands them to the *conditions* parameter of the matcher it builds (never to the results
+// parameter), and records the matcher it built as the open condition on every way to its return; where a pair of
+// (arguments, results) is unpacked, the field holding the arguments goes to the conditions and the field holding the
+// results to the results.
+func c04ConditionsReachMatcher(p *Prog, r *Report, when *types.Named) {
+	n := 0
+	for _, f := range p.FuncsIn("") {
+		if f.Blocks == nil || f.Signature.Recv() == nil || f.Object() == nil || !f.Object().Exported() {
+			continue
+		}
+		if pt, ok := f.Signature.Recv().Type().(*types.Pointer); !ok || pt.Elem() != types.Type(when) {
+			continue
+		}
+		eachInstr(f, func(i ssa.Instruction) {
+			cl, ok := i.(*ssa.Call)
+			if !ok {
+				return
+			}
+			cal := staticCallee(cl.Common())
+			if cal == nil || relPkg(cal) != "" || cal.Signature.Recv() != nil {
+				return
+			}
+			conds, results := matcherCtorRoles(p, cal)
+			if len(conds) == 0 {
+				return
+			}
+			n++
+			bad := ""
+			// where does each argument come from: the method's variadic parameter / a field named like the pair's halves
+			src := func(v ssa.Value) string {
+				out := ""
+				if f.Signature.Variadic() && dependsOn(v, func(x ssa.Value) bool { return x == ssa.Value(f.Params[len(f.Params)-1]) }) {
+					// a pair parameter is told apart by the field that was read
+					out = "param"
+				}
+				if dependsOn(v, func(x ssa.Value) bool {
+					_, fv, ok := fieldRef(x)
+					return ok && fv != nil && fv.Name() == "Args"
+				}) {
+					out = "Args"
+				}
+				if dependsOn(v, func(x ssa.Value) bool {
+					_, fv, ok := fieldRef(x)
+					return ok && fv != nil && fv.Name() == "Return"
+				}) {
+					out = "Return"
+				}
+				return out
+			}
+			gotCond := false
+			for k, a := range cl.Call.Args {
+				s := src(a)
+				if conds[k] && (s == "param" || s == "Args") {
+					gotCond = true
+				}
+				if conds[k] && s == "Return" {
+					bad = "the results half of the pair is used as the condition"
+				}
+				if results[k] && !conds[k] && (s == "Args" || (s == "param" && f.Name() != "Matches")) {
+					bad = "the caller's condition arguments are handed to the results parameter of " + shortName(cal)
+				}
+			}
+			if !gotCond && bad == "" {
+				bad = "the conditions parameter of " + shortName(cal) + " does not receive the caller's condition arguments"
+			}
+			r.Check(bad == "", "C04.R10", "condition arguments of "+shortName(f)+" reach the conditions of "+shortName(cal), p.Pos(posOf(cl)), "conditions ← the caller's arguments; results ← the results",
+				bad+": the condition is built from the wrong list, so it matches calls it was not written for (or none at all)")
+		})
+	}
+	// the open condition is recorded: a When method that builds a conditional matcher from its variadic parameter stores it
+	// into a Matcher-typed field of the receiver (or appends it to the condition list) on every way to a return
+	matcherT := p.NamedType("", "Matcher")
+	for _, f := range p.FuncsIn("") {
+		if f.Blocks == nil || f.Signature.Recv() == nil || f.Object() == nil || !f.Object().Exported() || !f.Signature.Variadic() {
+			continue
+		}
+		if pt, ok := f.Signature.Recv().Type().(*types.Pointer); !ok || pt.Elem() != types.Type(when) {
+			continue
+		}
+		vp := f.Params[len(f.Params)-1]
+		var ctorCalls []*ssa.Call
+		eachInstr(f, func(i ssa.Instruction) {
+			if cl, ok := i.(*ssa.Call); ok {
+				cal := staticCallee(cl.Common())
+				if cal == nil || relPkg(cal) != "" || cal.Signature.Recv() != nil {
+					return
+				}
+				conds, _ := matcherCtorRoles(p, cal)
+				for k := range conds {
+					if k < len(cl.Call.Args) && dependsOn(cl.Call.Args[k], func(x ssa.Value) bool { return x == ssa.Value(vp) }) {
+						ctorCalls = append(ctorCalls, cl)
+					}
+				}
+			}
+		})
+		_ = matcherT
+		if len(ctorCalls) == 0 && (f.Name() == "When" || f.Name() == "In") {
+			n++
+			r.Bad("C04.R10", "condition built in "+shortName(f)+" is recorded", p.Pos(f.Pos()), "the method that opens a condition builds no matcher from its arguments: the following Return feeds the previous (or the default) stub, so the configured results are served for calls the condition was meant to exclude")
+		}
+		for _, cc := range ctorCalls {
+			isRecord := func(j ssa.Instruction) bool {
+				switch x := j.(type) {
+				case *ssa.Store:
+					fa, ok := x.Addr.(*ssa.FieldAddr)
+					return ok && resolveLocal(fa.X) == ssa.Value(f.Params[0]) && dependsOn(x.Val, func(v ssa.Value) bool { return v == ssa.Value(cc) })
+				}
+				return false
+			}
+			okAll := true
+			for _, ret := range returnsOf(f) {
+				if reachableAfter(cc, ret) && reachableAvoiding(cc, ret, isRecord) {
+					okAll = false
+				}
+			}
+			n++
+			r.Check(okAll, "C04.R10", "condition built in "+shortName(f)+" is recorded", p.Pos(posOf(cc)), "stored into the When on every way to the return",
+				"the condition built from the caller's arguments is dropped: the following Return feeds the previous (or the default) stub, so the configured results are served for calls the condition was meant to exclude")
+		}
+	}
+	if n == 0 {
+		r.Und("C04.R10", "condition forwarding", "", "no When method builds a matcher from its arguments")
+	}
+}
+
+// c04UnwrapFromLast: C04.R12 — in the list converters of package arg (functions with a []reflect.Type parameter), the
+// treatment of a value as (an element of) the variadic tail — Value.Index over it, Type.Elem of its declared type — is
+// applied exactly from the last declared position on: the conditions that lead to the site bound the position below by
+// len(types)-1, no more and no less.
+func c04UnwrapFromLast(p *Prog, r *Report) {
+	n := 0
+	for _, f := range p.FuncsIn("arg") {
+		if f.Blocks == nil {
+			continue
+		}
+		var typs *ssa.Parameter
+		for _, pr := range f.Params {
+			if sl, ok := pr.Type().Underlying().(*types.Slice); ok && strings.HasSuffix(sl.Elem().String(), "reflect.Type") {
+				typs = pr
+			}
+		}
+		if typs == nil {
+			continue
+		}
+		k := NewKeyer(f)
+		lenKey := "len(" + k.Key(typs) + ")"
+		nInF := 0
+		// the position: what indexes the list of values being converted (go/ssa counts a range loop from -1 and indexes
+		// with counter+1, so bounds on the counter are shifted accordingly)
+		shift := map[string]int64{}
+		eachInstr(f, func(i ssa.Instruction) {
+			ia, ok := i.(*ssa.IndexAddr)
+			if !ok {
+				return
+			}
+			sl, ok := ia.X.Type().Underlying().(*types.Slice)
+			if !ok || !types.IsInterface(sl.Elem()) || strings.HasSuffix(sl.Elem().String(), "reflect.Type") {
+				return
+			}
+			form := map[string]int64{}
+			var c int64
+			linForm(k, ia.Index, 1, form, &c, 0)
+			for key, co := range form {
+				if co == 1 && len(form) == 1 {
+					shift[key] = c
+				}
+			}
+		})
+		eachInstr(f, func(i ssa.Instruction) {
+			cl, ok := i.(*ssa.Call)
+			if !ok || !underVariadicLocal(p, cl.Block()) {
+				return
+			}
+			isSite := false
+			switch {
+			case calleeName(cl.Common()) == "(reflect.Value).Index":
+				isSite = true
+			case cl.Call.IsInvoke() && cl.Call.Method.Name() == "Elem" && strings.HasSuffix(cl.Call.Value.Type().String(), "reflect.Type"):
+				isSite = true
+			}
+			if !isSite {
+				return
+			}
+			n++
+			nInF++
+			// lower bounds pos - len(types) >= c among the conditions that hold at the site
+			best := int64(-1 << 40)
+			for _, g := range guardsAt(cl.Block()) {
+				bo, ok := g.Cond.(*ssa.BinOp)
+				if !ok || !isIntegerType(bo.X.Type()) {
+					continue
+				}
+				form := map[string]int64{}
+				var konst int64
+				linForm(k, bo.X, 1, form, &konst, 0)
+				linForm(k, bo.Y, -1, form, &konst, 0)
+				lc := form[lenKey]
+				if lc != 1 && lc != -1 {
+					continue
+				}
+				others, oc := 0, int64(0)
+				posKey := ""
+				for key, c := range form {
+					if c != 0 && key != lenKey {
+						others++
+						oc = c
+						posKey = key
+					}
+				}
+				if others != 1 || oc != -lc {
+					continue
+				}
+				// express the counter through the position: counter = position - shift
+				konst -= oc * shift[posKey]
+				// expression e = oc*pos + lc*len + konst ; condition (e op 0) has polarity g.Pol
+				op := bo.Op
+				if !g.Pol {
+					switch op {
+					case token.LSS:
+						op = token.GEQ
+					case token.LEQ:
+						op = token.GTR
+					case token.GTR:
+						op = token.LEQ
+					case token.GEQ:
+						op = token.LSS
+					default:
+						continue
+					}
+				}
+				// normalise to pos - len + c0 (op') 0 with coefficient of pos = +1
+				c0 := konst
+				if oc == -1 {
+					c0 = -konst
+					switch op {
+					case token.LSS:
+						op = token.GTR
+					case token.LEQ:
+						op = token.GEQ
+					case token.GTR:
+						op = token.LSS
+					case token.GEQ:
+						op = token.LEQ
+					}
+				}
+				// pos - len + c0 >= 0  ⇒ pos - len >= -c0 ; > 0 ⇒ >= -c0+1
+				switch op {
+				case token.GEQ:
+					if -c0 > best {
+						best = -c0
+					}
+				case token.GTR:
+					if -c0+1 > best {
+						best = -c0 + 1
+					}
+				}
+			}
+			r.Check(best == -1, "C04.R12", "variadic treatment in "+shortName(f)+" #"+itoa2(nInF)+" starts at the last declared position", p.Pos(posOf(cl)), "position >= len(types)-1 and nothing stronger",
+				"a value is treated as part of the variadic tail (unwrapped / converted against the element type) from a position other than the last declared one: the first variadic value is compared against the slice type, or the last fixed argument is taken apart as if it were the packed slice")
+		})
+	}
+	if n == 0 {
+		r.Und("C04.R12", "variadic positions", "", "no position-dependent variadic treatment found in package arg")
+	}
+}
